@@ -1,0 +1,102 @@
+//go:build verif
+
+package walk
+
+// Contracts for the govc verifier (/verif/DESIGN.md). Package clause and comments only.
+//
+// The walk protocol. A visitor is abstracted by three ghost cells, indexed by the visitor value:
+//   vdone[v]   the visitor asked to stop (what Done() reports),
+//   vdepth[v]  the number of Enter notifications not yet matched by an Exit,
+//   vopen[v]   the nodes of those open Enters, innermost last.
+// The Visitor interface contract says what a callback may assume and change: Enter/Visit/Exit are only
+// ever invoked on a visitor that has not asked to stop, Exit(n) closes the innermost open Enter and that
+// Enter was for the same node n. walk.Generic is then verified against it: properly nested enter/exit
+// notifications with matching nodes, no notification after the visitor asked to stop, every error reported
+// by the visitor is returned, every index into the cursor stack and every NextBranch is in range.
+
+//@ ghost comp vdone bool
+//@ ghost comp vdepth int
+//@ ghost comp vopen seq[int]
+
+//@ iface func (v Visitor[N]) Done() bool
+//@   ensures result == vdone[v]
+//@ iface func (v Visitor[N]) Error() error
+//@   ensures result != nil ==> vdone[v]
+//@ iface func (v Visitor[N]) WasConsumed() bool
+//@ iface func (v Visitor[N]) Enter(node N)
+//@   requires notStopped: !vdone[v]
+//@   modifies vdone[v], vdepth[v], vopen[v]
+//@   ensures vdepth[v] == old(vdepth[v]) + 1 && vopen[v] == old(vopen[v])[old(vdepth[v]) := node]
+//@ iface func (v Visitor[N]) Visit(node N)
+//@   requires notStopped: !vdone[v]
+//@   requires open: vdepth[v] >= 1 && vopen[v][vdepth[v] - 1] == node
+//@   modifies vdone[v]
+//@ iface func (v Visitor[N]) Exit(node N)
+//@   requires notStopped: !vdone[v]
+//@   requires nested: vdepth[v] >= 1 && vopen[v][vdepth[v] - 1] == node
+//@   modifies vdone[v], vdepth[v]
+//@   ensures vdepth[v] == old(vdepth[v]) - 1
+
+// ---- cursors -------------------------------------------------------------------------------------------------
+
+//@ func (s *Cursor[N]) HasNext() bool
+//@   requires s != nil
+//@   nomod
+//@   ensures result == (s.BranchIndex < len(s.Branches))
+//@ func (s *Cursor[N]) IsFirstVisit() bool
+//@   requires s != nil
+//@   nomod
+//@   ensures result == (s.BranchIndex == 0)
+//@ func (s *Cursor[N]) NumBranchesRemaining() int
+//@   requires s != nil
+//@   nomod
+//@   ensures result == len(s.Branches) - s.BranchIndex
+//@ func (s *Cursor[N]) NextBranch() N
+//@   requires s != nil && 0 <= s.BranchIndex && s.BranchIndex < len(s.Branches)
+//@   modifies s.BranchIndex
+//@   ensures result == s.Branches[old(s.BranchIndex)] && s.BranchIndex == old(s.BranchIndex) + 1
+
+// ---- the cancelable handler ------------------------------------------------------------------------------------
+
+//@ func (s *cancelableVisitorHandler) SetDone()
+//@   requires s != nil
+//@   modifies s.done
+//@   ensures s.done
+//@ func (s *cancelableVisitorHandler) Done() bool
+//@   requires s != nil
+//@   nomod
+//@   ensures result == s.done
+//@ func (s *cancelableVisitorHandler) Error() error
+//@   requires s != nil
+//@   nomod
+//@   ensures result == s.err
+//@ func (s *cancelableVisitorHandler) Consume()
+//@   requires s != nil
+//@   modifies s.currentSyntaxNodeConsumed
+//@   ensures s.currentSyntaxNodeConsumed
+//@ func (s *cancelableVisitorHandler) WasConsumed() bool
+//@   requires s != nil
+//@   modifies s.currentSyntaxNodeConsumed
+//@   ensures result == old(s.currentSyntaxNodeConsumed) && !s.currentSyntaxNodeConsumed
+
+// ---- the generic walk --------------------------------------------------------------------------------------------
+// wfStack: every cursor on the stack is a valid cursor, every cursor below the top has been entered and has
+// handed out at least one branch; entered(top) <==> top.BranchIndex > 0 at the head of the loop.
+
+//@ func Generic(node E, visitor Visitor[E], cursorConstructor func(node E) (*Cursor[E], error)) error
+//@   requires visitor != nil && vdepth[visitor] == 0
+//@   modifies vdone[visitor], vdepth[visitor], vopen[visitor]
+//@   fparam cursorConstructor(n E) (c *Cursor[E], err error)
+//@     nomod
+//@     allocates Cursor
+//@     ensures err == nil ==> c != nil && fresh(c) && c.Node == n && c.BranchIndex == 0
+//@   endfparam
+//@   ensures stoppedOrBalanced: result == nil && !vdone[visitor] ==> vdepth[visitor] == 0
+//@   loop 0
+//@     invariant stack: (stack.arr == nil || fresh(stack.arr)) && stack.off == 0
+//@     invariant cursors: forall i int :: 0 <= i && i < len(stack) ==> stack[i] != nil && fresh(stack[i]) && 0 <= stack[i].BranchIndex && stack[i].BranchIndex <= len(stack[i].Branches)
+//@     invariant distinct: forall i int; j int :: 0 <= i && i < j && j < len(stack) ==> stack[i] != stack[j]
+//@     invariant entered: forall i int :: 0 <= i && i + 1 < len(stack) ==> stack[i].BranchIndex >= 1
+//@     invariant depth: len(stack) == 0 ==> vdepth[visitor] == 0
+//@     invariant depthTop: len(stack) > 0 ==> vdepth[visitor] == (stack[len(stack) - 1].BranchIndex >= 1 ? len(stack) : len(stack) - 1)
+//@     invariant open: forall i int :: 0 <= i && i < vdepth[visitor] ==> vopen[visitor][i] == stack[i].Node
